@@ -29,7 +29,9 @@ RULE = ("case = generated dataset x damaged shard (first / middle / last, "
         "that file raises (otherwise counted as fault-not-effective). Oracle: "
         "the full pass must deliver an exception to the consumer; a normal "
         "end is silent truncation; a simulator deadlock / step-budget "
-        "exhaustion (or a watchdog kill for Rust) is a hang. Non-trivial = "
+        "exhaustion (or a watchdog kill for Rust) is a hang. 30% of the cases "
+        "read the default repeating stream instead: the exception must "
+        "arrive within 3 epochs' worth of examples. Non-trivial = "
         "effective damage; distinct = SHA-1 of trace + outcome.")
 ASSUMPTIONS = c02.ASSUMPTIONS + [
     "a hang inside tf.data itself cannot be turned into a verdict (the main "
